@@ -30,6 +30,7 @@ type PropConfig struct {
 	NotCovered  []string `json:"not_covered"`
 	Replay      []ReplayAdapter `json:"replay"`
 	Sweep       *SweepConfig    `json:"sweep"`
+	Bounded     []BoundedCheck  `json:"bounded"`
 }
 
 type StructuralCheck struct {
@@ -239,6 +240,13 @@ func cmdVerify(args []string) (code int) {
 	genS := time.Since(tGen).Seconds()
 	// structural (frame / call-graph) obligations
 	sres := v.runStructural(cfg)
+	// bounded stand-ins (real code, exhaustive up to the stated bound; never counted as proved)
+	var bres []BoundedResult
+	if *only == "" {
+		for _, bc := range cfg.Bounded {
+			bres = append(bres, runBounded(*verif, *repo, overlay, &cfg, bc, *tier == "thorough")...)
+		}
+	}
 
 	timeout := 10
 	if *tier == "thorough" {
@@ -277,6 +285,7 @@ func cmdVerify(args []string) (code int) {
 	var violations []string
 	var knownHit []string
 	engineProblem := false
+	nKnownBounded := 0
 	for _, o := range allObls {
 		solverTime += o.TimeS
 		if o.Cover {
@@ -366,6 +375,36 @@ func cmdVerify(args []string) (code int) {
 		os.WriteFile(rp, d, 0o644)
 		violations = append(violations, fmt.Sprintf("VIOLATION property=%s replay=%s obligation=%s (%s)%s", cfg.ID, rp, s.Name, truncate(s.Detail, 200), suffix))
 	}
+	var boundedEv []map[string]interface{}
+	for _, b := range bres {
+		rec := map[string]interface{}{"obligation": b.Name, "clause": b.Text, "bound": b.Bound, "cases": b.Cases, "holds_within_bound": b.OK, "wall_s": round3(b.WallS), "labelled": "bounded (not a proof; not counted in obligations/discharged)"}
+		if !b.OK {
+			rec["failing_class"] = b.Class
+			rec["failing_inputs"] = b.Inputs
+			rec["detail"] = b.Detail
+			if b.RanError != "" {
+				rec["driver_output"] = b.RanError
+			}
+		}
+		boundedEv = append(boundedEv, rec)
+		if b.OK {
+			continue
+		}
+		if kf := isKnown(b.Name); kf != nil {
+			knownHit = append(knownHit, fmt.Sprintf("KNOWN-FINDING: property=%s %s [%s]", cfg.ID, kf.WhatFails, b.Name))
+			nKnownBounded++
+			continue
+		}
+		nViol++
+		rp := filepath.Join(replayDir, sanitize(strings.ReplaceAll(b.Name, "/", "_"))+".json")
+		d, _ := json.MarshalIndent(rec, "", " ")
+		os.WriteFile(rp, d, 0o644)
+		suffix := ""
+		if len(b.Inputs) == 0 {
+			suffix = " no-failing-input-found"
+		}
+		violations = append(violations, fmt.Sprintf("VIOLATION property=%s replay=%s obligation=%s (bounded check on the real code, %s: %s; failing inputs e.g. %s)%s", cfg.ID, rp, b.Name, b.Bound, truncate(b.Detail, 200), truncate(strings.Join(b.Inputs, " "), 300), suffix))
+	}
 	total := len(allObls) - nCover + len(sres)
 	if *dump {
 		sorted := append([]*Obligation(nil), allObls...)
@@ -418,9 +457,11 @@ func cmdVerify(args []string) (code int) {
 			"assumptions": assumptions,
 			"coverage": map[string]interface{}{
 				"obligations":              total,
-				"discharged":               nDis + len(knownHit),
+				"discharged":               nDis + len(knownHit) - nKnownBounded,
+				"bounded":                  boundedEv,
 				"discharged_excluding_known_findings": nDis,
 				"known_findings_reported":  len(knownHit),
+				"known_findings_from_bounded_checks": nKnownBounded,
 				"cover_checks_sat":         nCover,
 				"checker_cmd":              fmt.Sprintf("/verif/bin/gocv verify --prop %s --tier %s", cfg.ID, *tier),
 				"trusted_base":             []string{"golang.org/x/tools go/packages+go/types+go/ssa v0.29.0 (source -> SSA)", "gocv VC generator (/verif/gocv)", "z3 5.1.0 (z3-new), z3 4.8.12, cvc5 1.0.3", "ext contracts in /verif/contracts/ext (assumed)"},
